@@ -19,7 +19,7 @@ from ..world import real_eval, classify
 
 ID = 'C16'
 LEVEL = 'exploration'
-TIERS = {'quick': 4000, 'thorough': 150000}
+TIERS = {'quick': 12000, 'thorough': 800000}
 RULE = ('seeded histories of 6-30 calls of parse / eval / list_names on one SqParser, each failing in a way injected by '
         'construction (lexical, syntax incl. premature end at every non-final token kind, reserved word, undefined '
         'variable / function at 15 syntactic positions, missing key / index, pop on empty, compound index assignment on a '
